@@ -109,6 +109,9 @@ func (e External) RunJob(ch *choice.Source, opt Options, params map[string]strin
 	cmd.Env = append(os.Environ(), "VERIF_JOB="+jobPath, "TMPDIR="+dir)
 	if maxProcs > 0 {
 		cmd.Env = append(cmd.Env, fmt.Sprintf("GOMAXPROCS=%d", maxProcs))
+	} else if os.Getenv("GOMAXPROCS") == "" {
+		// 16 workers each start one child per run: a child needs two threads, not sixteen
+		cmd.Env = append(cmd.Env, "GOMAXPROCS=2")
 	}
 	cmd.Dir = dir
 	var out bytes.Buffer
